@@ -163,7 +163,7 @@ def check(case):
 def parts(tier):
     q = tier == "quick"
     return [
-        {"name": "constructions", "kind": "hypothesis", "strategy": lambda: GS.constructions(FMT), "examples": 2500 if q else 16 * 15000},
-        {"name": "histories", "kind": "hypothesis", "strategy": lambda: GS.histories(FMT), "examples": 1500 if q else 16 * 8000},
-        {"name": "machine", "kind": "machine", "factory": lambda: machine_factory(FMT, wrap_unexpected(roundtrip)), "examples": 300 if q else 16 * 1500, "steps": 25 if q else 50},
+        {"name": "constructions", "kind": "hypothesis", "strategy": lambda: GS.constructions(FMT), "examples": 2500 if q else 16 * 6000},
+        {"name": "histories", "kind": "hypothesis", "strategy": lambda: GS.histories(FMT), "examples": 1500 if q else 16 * 3000},
+        {"name": "machine", "kind": "machine", "factory": lambda: machine_factory(FMT, wrap_unexpected(roundtrip)), "examples": 300 if q else 16 * 500, "steps": 25 if q else 50},
     ]
